@@ -48,7 +48,7 @@ def check_sources(rep, prog):
         rep.saw(fn=f)
         outs = run_roles(prog, f, ('self',))
         for s in outs:
-            r = render(s.ret)
+            r = taint.qualify_urandom(render(s.ret), f.module)
             exp = 'os.urandom((self.%s // 8))' % size
             c = split_args(r)
             ok = s.raised is None and c is not None and c[0] == 'os.urandom' and len(c[1]) == 1 and \
@@ -149,9 +149,8 @@ def check_session_key(rep, prog):
                               'a caller-supplied session key must be the one used', where=fi.where, expected='sessionkey', found=k_data,
                               scenario=scen)
                 else:
-                    m = taint.entropy_call(k_data or '')
-                    ok = m is not None and (k_data or '').endswith('.gen_key()') and m.group('alg') == alg_data and \
-                        len(taint.draws(d['state'], 'gen_key')) == 1          # one draw: both packets get THE key, not two equal-looking ones
+                    # one draw of the data cipher's key size: both packets get THE key, not two equal-looking ones
+                    ok = taint.fresh_draw(taint.qualify_urandom(k_data, fi.module)) == ('key', alg_data) and taint.n_draws(d['state']) == 1
                     rep.check(ok, 'C13.2', construct, '%s: session key = %s' % (scen, k_data),
                               'when no session key is supplied it must be <cipher>.gen_key() of the cipher the data is encrypted with, '
                               'generated inside this call', where=fi.where, expected='%s.gen_key()' % alg_data, found=k_data, scenario=scen)
@@ -173,7 +172,8 @@ def check_skesk_salt(rep, prog):
         if s.raised:
             continue
         salts = [v for p, v, l, _ in s.stores if p == 'self.s2k.salt']
-        rep.check(salts == ['os.urandom(8)'] and len(taint.draws(s, 'urandom')) == 1, 'C13.2', 'SKESessionKeyV4.encrypt_sk', 'salt = %s' % salts,
+        rep.check(len(salts) == 1 and taint.is_urandom_of(salts[0], 8, fi.module) and taint.n_draws(s) == 1, 'C13.2', 'SKESessionKeyV4.encrypt_sk',
+                  'salt = %s' % salts,
                   'every passphrase encryption must draw a fresh 8-octet salt', where=fi.where, expected='self.s2k.salt = os.urandom(8)',
                   found=salts)
         # the salt is set before the key is derived from it
@@ -196,7 +196,9 @@ def check_seipd_prefix(rep, prog):
             continue
         a = list(enc[0][1])
         its = split_items(a[0]) if a else []
-        rep.check(its[:3] == PREFIX and len(its) > 3 and len(taint.draws(s, 'gen_iv')) == 1, 'C13.2', W, 'plaintext %s' % ' '.join(its)[:80],
+        its = [taint.qualify_urandom(x, fi.module) for x in its]
+        rep.check(taint.random_prefix(its, 'alg', 'data') is not None and len(its) > 3 and taint.n_draws(s) == 1, 'C13.2', W,
+                  'plaintext %s' % ' '.join(its)[:80],
                   'the plaintext must start with a fresh random block of the cipher in use, its last two octets repeated',
                   where=fi.where, expected=' '.join(PREFIX) + ' ...', found=' '.join(its)[:120])
         rep.check(len(a) == 3 and a[2] == 'alg' and not enc[0][2], 'C13.2', W, '_encrypt args %s' % a[1:],
@@ -212,14 +214,17 @@ def check_keyblob(rep, prog):
         iv = [v for p, v, l, _ in s.stores if p == 'self.s2k.iv']
         salt = [v for p, v, l, _ in s.stores if p == 'self.s2k.salt']
         alg = [v for p, v, l, _ in s.stores if p == 'self.s2k.encalg']
-        rep.check(iv == ['enc_alg.gen_iv()'] and alg == ['enc_alg'] and len(taint.draws(s, 'gen_iv')) == 1, 'C13.2', 'PrivKey.encrypt_keyblob',
+        iv = [taint.qualify_urandom(x, fi.module) for x in iv]
+        rep.check(len(iv) == 1 and taint.fresh_draw(iv[0]) == ('iv', 'enc_alg') and alg == ['enc_alg'] and taint.n_draws(s) == 2, 'C13.2',
+                  'PrivKey.encrypt_keyblob',
                   'iv = %s (cipher %s)' % (iv, alg),
                   'key protection must draw a fresh IV of the protection cipher', where=fi.where, expected='self.s2k.iv = enc_alg.gen_iv()',
                   found=iv)
-        rep.check(salt == ['os.urandom(8)'] and len(taint.draws(s, 'urandom')) == 1, 'C13.2', 'PrivKey.encrypt_keyblob', 'salt = %s' % salt,
+        rep.check(len(salt) == 1 and taint.is_urandom_of(salt[0], 8, fi.module), 'C13.2', 'PrivKey.encrypt_keyblob', 'salt = %s' % salt,
                   'key protection must draw a fresh 8-octet salt', where=fi.where, expected='self.s2k.salt = os.urandom(8)', found=salt)
         enc = taint.calls_named(s, '_encrypt')
-        ok = len(enc) == 1 and len(enc[0][1]) == 4 and not enc[0][2] and enc[0][1][3] == 'enc_alg.gen_iv()' and enc[0][1][2] == 'enc_alg'
+        ok = len(enc) == 1 and len(enc[0][1]) == 4 and not enc[0][2] and [taint.qualify_urandom(enc[0][1][3], fi.module)] == iv and \
+            enc[0][1][2] == 'enc_alg'
         rep.check(ok, 'C13.2', 'PrivKey.encrypt_keyblob', '_encrypt(%s)' % (enc[0][1][1:] if enc else None),
                   'the secret material must be encrypted under the IV that is stored with the key', where=fi.where,
                   expected='_encrypt(pt, key, enc_alg, <the stored iv>)', found=enc[0][1] if enc else None)
